@@ -202,6 +202,7 @@ rec_model!(DedupNoNames { s: DeduplicatedString, o: Option<DeduplicatedString>, 
 rec_model!(DedupV0 { a: DeduplicatedString, b: String, c: DeduplicatedString });
 rec_model!(MaxSteps { a: u8, b: String });
 rec_model!(BadEvolution { a: u8 });
+include!("special_wide.rs");
 rec_model!(ReusedName { a: u32, x: u32 });
 rec_model!(ReusedNameOpt { a: u32, x: Option<u32> });
 
@@ -585,6 +586,7 @@ pub fn register(reg: &mut Registry) {
     refmodel::register("Nest11", Ty::Record(Arc::new(RecordSchema { name: "Nest11".into(), fields: vec![f::<u8>("head", false), sbase::fs::<u32>("tail", false, false, Some(Val::U(0)))], steps: vec![Step::Added("tail".into())] })));
     reg.add_tagged::<Nest0>("Nest0", &["special:deep_nesting"]);
     reg.add_tagged::<Nest8>("Nest8", &["special:deep_nesting"]);
+    register_wide(reg);
     refmodel::register("BigEnum", Ty::Enum(Arc::new(schema_bigenum())));
     refmodel::register("BigEnumSorted", Ty::Enum(Arc::new(schema_bigenumsorted())));
     reg.add_tagged::<BigEnum>("BigEnum", &["special:limits", "enum"]);
